@@ -334,4 +334,5 @@ func c09(p *model.Prog, r *report.Result) {
 	c09r6(p, r)
 	c09r7(p, r)
 	w8BitWriterMask(p, r, "C09.R8", "pkg/mpegts")
+	w9ExtensionBytes(p, r, "C09.R9")
 }
